@@ -56,12 +56,17 @@ def check(prop, tier, seed, replay):
 # ---------------------------------------------------------------------------------------------------------------
 # C20: determinism - the same behaviours executed by two processes must agree step by step (TraceDet.tla)
 
-DET_SOURCES = [
-    # (family dict, generation cfg, share of behaviours)
-    (F.CORE, "gen_core.cfg", 0.4),
-    (GENESIS, "gen_core_export.cfg", 0.2),
-    (A.FAM, "gen_apps.cfg", 0.4),
-]
+def _det_sources():
+    from . import fam_bsc as B, fam_eth as E, fam_tm as TM
+    # (family dict, generation module, generation cfg, share of behaviours, with the family's fixed behaviours)
+    return [
+        (F.CORE, "MCCore.tla", "gen_core.cfg", 0.3, True),
+        (GENESIS, "MCCore.tla", "gen_core_export.cfg", 0.15, True),
+        (A.FAM, "MCApps.tla", "gen_apps.cfg", 0.3, True),
+        (B.FAM, "MCBsc.tla", "gen_bsc.cfg", 0.5, False),
+        (E.FAM, "MCEth.tla", "gen_eth.cfg", 0.3, False),
+        (TM.FAM, "MCTm.tla", "gen_tm.cfg", 0.3, False),
+    ]
 
 
 def _det_run(binp, work, tag, fam, behs, shards, env):
@@ -79,16 +84,17 @@ def check_c20(tier, seed, replay):
         C.copy_specs(work)
         num, depth = (18, 30) if tier == "quick" else (180, 50)
         bad, steps, ntr, samples, acts = [], 0, 0, [], {}
-        sources = DET_SOURCES
+        sources = _det_sources()
         if replay:
             rp = json.load(open(replay))
-            sources = [(dict(name=rp["family"], harness=rp["harness"]), None, 1.0)]
-        for fam, cfg, share in sources:
+            sources = [(dict(name=rp["family"], harness=rp["harness"]), None, None, 1.0, False)]
+        for fam, mod, cfg, share, with_fixed in sources:
             if replay:
                 behs = [rp["behaviour"]]
             else:
-                behs = [b["events"] for b in T.fixed_behaviours(fam)]
-                behs += C.simulate(work, "MCApps.tla" if "apps" in cfg else "MCCore.tla", cfg, max(1, int(num * share)), depth, seed * 31 + 7)
+                behs = [b["events"] for b in T.fixed_behaviours(fam)] if with_fixed else []
+                behs += C.simulate(work, mod, cfg, max(1, int(num * share)), fam["gen"][tier][1] if not with_fixed else depth, seed * 31 + 7,
+                                   timeout=fam["gen"].get("timeout", 600))
             tmp2 = os.path.join(work, "tmp-second")
             os.makedirs(tmp2, exist_ok=True)
             t1 = _det_run(binp, work, fam["name"] + "-1", fam, behs, None, None)
@@ -107,8 +113,8 @@ def check_c20(tier, seed, replay):
                 for k, line in enumerate(fh):
                     rec = json.loads(line)
                     acts[rec["ev"]["act"]] = acts.get(rec["ev"]["act"], 0) + 1
-                    if k in (3, 9) and len(samples) < 6:
-                        samples.append(dict(family=fam["name"], ev=rec["ev"], code=rec["code"], rh=rec.get("rh"), ah=rec.get("ah")))
+                    if k in (3, 9) and len(samples) < 12:
+                        samples.append(dict(family=fam["name"], ev=rec["ev"], code=rec.get("code"), rh=rec.get("rh"), ah=rec.get("ah"), cdig=rec.get("cdig")))
         known = C.load_known()
         viol = [b for b in bad if not C.match_known("C20", b["v"], known)]
         seen = set()
